@@ -1018,7 +1018,14 @@ def reporting_job(case):
                                                      "Asia/Kolkata", "Australia/Sydney", "Pacific/Auckland", None])
     start = case.get("start") or "2023-%02d-%02d %02d:00" % (rng.randint(1, 12), rng.choice([1, 1, 1, 15, 28]), rng.choice([0, 0, 0, 1, 23]))
     step = case.get("step") or {"hourly": "h", "daily": "D", "billing": rng.choice(["30D", "MS"])}[freq]
-    idx = pd.date_range(pd.Timestamp(start, tz=tz), periods=m, freq=step)
+    if tz is None:
+        idx = pd.date_range(pd.Timestamp(start), periods=m, freq=step)
+    elif freq == "hourly":      # consecutive instants, shown on the local clock
+        t0 = pd.Timestamp(start).tz_localize(tz, ambiguous=True, nonexistent="shift_forward")
+        idx = pd.date_range(t0.tz_convert("UTC"), periods=m, freq=step).tz_convert(tz)
+    else:                       # the same local wall-clock time every day / period (DST gaps and folds resolved explicitly)
+        idx = pd.date_range(pd.Timestamp(start), periods=m, freq=step).tz_localize(tz, ambiguous=np.ones(m, dtype=bool),
+                                                                                  nonexistent="shift_forward")
     conf = case.get("conf") or rng.choice([0.9, 0.8, 0.95, 0.68])
     tail = case.get("tail") or rng.choice([1, 2])
     rdf = frame_of(rep, index=idx)
